@@ -34,6 +34,7 @@ fn run(args: &util::Args) -> usize {
         "variation" => drivers::variation::main(args),
         "determinism" => drivers::determinism::main(args),
         "memory" => drivers::memory::main(args),
+        "bh" => drivers::bh::main(args),
         "measures" => drivers::measures::main(args),
         "cro" => drivers::cro::main(args),
         "templates" => drivers::templates::main(args),
